@@ -70,6 +70,19 @@ def handleL3 (req ans : String) : Verdict :=
       -- the driver reports a model disagreement iff `model != ans`: give back `ans` itself when the
       -- comparison rule accepts it
       { model := if ok then ans else m, specOk := true, spec := "-", nontrivial := ans.startsWith "OK" && src.length > 10 }
+  | ["asm2", e1, e2] =>
+    match pctDecode e1, pctDecode e2, ans.splitOn " || " with
+    | some s1, some s2, [a1, a2] =>
+      let (m1, ok1) := asmVerdict s1 a1
+      let (m2, ok2) := asmVerdict s2 a2
+      -- C11: the two renderings of the same program must emit identical code and data lists
+      let lists := fun (a : String) => ((a.splitOn " | ").filter fun f => f.startsWith "c=" || f.startsWith "d=" || f.startsWith "f=")
+      let errMsg := fun (a : String) => " ".intercalate ((a.splitOn " ").drop 3)
+      let same := (a1.startsWith "OK" && a2.startsWith "OK" && lists a1 == lists a2)
+        || (a1.startsWith "ERR custom" && a2.startsWith "ERR custom" && errMsg a1 == errMsg a2)
+      { model := if ok1 && ok2 then ans else s!"{m1} || {m2}", specOk := same,
+        spec := "both renderings accepted with identical code/data lists (or both refused with the same diagnostic)", nontrivial := s1 != s2 }
+    | _, _, _ => bad
   | _ => bad
 
 end Driver
